@@ -151,17 +151,17 @@ pub fn generichash_edge_keys(out: &mut Out, rng: &mut Rng) {
     for klen in [None, Some(0usize), Some(1), Some(15), Some(16), Some(17), Some(64), Some(65)] {
         let keyv = klen.map(|k| rng.bytes(k));
         let key = keyv.as_deref();
-        for len in [0usize, 1, 127, 128, 129, 300] {
+        for (len, outlen) in [(0usize, 32usize), (1, 32), (127, 32), (128, 32), (129, 32), (300, 32), (0, 64), (1, 64), (127, 64), (128, 64), (129, 64), (256, 64), (384, 64), (1024, 64), (128, 16), (256, 17), (128, 63)] {
             let msg = rng.bytes(len);
             let cut = rng.below(len as u64 + 1) as usize;
-            let rp = json!({"op":"generichash.edge-key","key":key.map(hx),"msg":hx(&msg),"split":cut});
+            let rp = json!({"op":"generichash.edge-key","key":key.map(hx),"msg":hx(&msg),"split":cut,"outlen":outlen});
             out.search_evaluations += 3;
-            let one = crate::c07::d_generichash(32, &msg, key);
+            let one = crate::c07::d_generichash(outlen, &msg, key);
             for (what, chunks) in [("one piece", vec![&msg[..]]), ("two pieces", vec![&msg[..cut], &msg[cut..]]), ("empty pieces around", vec![&msg[..0], &msg[..cut], &msg[..0], &msg[cut..], &msg[..0]])] {
-                let inc = crate::c07::d_generichash_chunks(32, key, &chunks, 32);
+                let inc = crate::c07::d_generichash_chunks(outlen, key, &chunks, outlen);
                 if inc != one { out.hit("generichash.incremental-differs-from-oneshot.edge-key", format!("key {:?} bytes, message {} bytes, {} (one-shot {}, incremental {})", klen, len, what, one.class(), inc.class()), rp.clone()); }
             }
-            if let (Outcome::Ok(o), Some(l)) = (&one, sodium::generichash(32, &msg, key)) { if klen != Some(0) && *o != l { out.hit("generichash.edge-key.differs-from-libsodium", format!("key {:?} bytes", klen), rp.clone()); } }
+            if let (Outcome::Ok(o), Some(l)) = (&one, sodium::generichash(outlen, &msg, key)) { if klen != Some(0) && *o != l { out.hit("generichash.edge-key.differs-from-libsodium", format!("key {:?} bytes", klen), rp.clone()); } }
         }
         if let Some(k) = &keyv {
             let msg = rng.bytes(40);
@@ -471,6 +471,30 @@ pub fn seeded_object_keys(out: &mut Out, rng: &mut Rng) {
 }
 
 
+/// C06: signing uses the secret key (seed and the public key it embeds), not the key pair's separately settable public_key
+/// field: a pair whose field holds something else still produces libsodium's signature for that secret key
+pub fn sign_keypair_fields(out: &mut Out, rng: &mut Rng) {
+    use dryoc::sign::{SigningKeyPair, VecSignedMessage, PublicKey, SecretKey};
+    for r in 0..3 {
+        let seed: [u8; 32] = rng.arr();
+        let (spk, ssk) = sodium::sign_seed_keypair(&seed);
+        let other = sodium::sign_seed_keypair(&rng.arr()).0;
+        for mlen in [0usize, 1, 33] {
+            let m = rng.bytes(mlen);
+            let want = sodium::sign_detached(&m, &ssk);
+            for (what, pkf) in [("honest", spk), ("zeroed placeholder", [0u8; 32]), ("another key", other), ("one bit changed", { let mut x = spk; x[5] ^= 4; x })] {
+                out.search_evaluations += 1;
+                let rp = json!({"op":"obj.SigningKeyPair.sign","seed":hx(&seed),"public_key_field":hx(&pkf),"msg":hx(&m),"round":r});
+                let kp = match SigningKeyPair::<PublicKey, SecretKey>::from_slices(&pkf, &ssk) { Ok(k) => k, Err(_) => { out.hit("obj.sign.keypair.from_slices.fails", what.to_string(), rp.clone()); continue; } };
+                match guard(|| { let sm: VecSignedMessage = kp.sign_with_defaults(m.clone())?; Ok::<_, dryoc::Error>(sm.into_parts().0.to_vec()) }) {
+                    Outcome::Ok(sig) => { if sig[..] != want[..] { out.hit("obj.sign.signature-depends-on-the-public-key-field", format!("{} field, message of {} bytes: not libsodium's signature for the secret key", what, mlen), rp.clone()); } }
+                    o => out.hit("obj.sign.fails", format!("{} field ({})", what, o.class()), rp.clone()),
+                }
+            }
+        }
+    }
+}
+
 /// C09 / C10: PwHash object paths where the configuration and the caller's arguments disagree in length
 pub fn pwhash_lengths(out: &mut Out, rng: &mut Rng) {
     use dryoc::pwhash::{Config, PwHash, VecPwHash};
@@ -484,6 +508,34 @@ pub fn pwhash_lengths(out: &mut Out, rng: &mut Rng) {
         match (kp, sodium::pwhash(32, &pw, &salt, 1, 8192, 2)) {
             (Outcome::Ok(kp), Some(w)) => { if kp.secret_key.as_array()[..] != w[..] || kp.public_key.as_array() != &sodium::scalarmult_base(&w[..].try_into().unwrap()) { out.hit("pwhash.derive_keypair.differs-from-libsodium-construction", format!("hash_length {}", hl), json!({"op":"obj.PwHash.derive_keypair","pw":hx(&pw),"salt":hx(&salt),"hash_length":hl})); } }
             (o, _) => out.hit("pwhash.derive_keypair.fails", format!("hash_length {} ({})", hl, o.class()), json!({"hash_length":hl})),
+        }
+    }
+    // a record of either algorithm (Argon2i only arises from a parsed string or a stored record) verifies the password that
+    // produced it and no other
+    for alg in [1i32, 2] {
+        let pw2 = rng.bytes(8);
+        if let Some(st) = sodium::pwhash_str_alg(&pw2, 3, 8192, alg) {
+            out.search_evaluations += 2;
+            let rp = json!({"op":"obj.PwHash.from_string+verify","string":st,"pw":hx(&pw2),"alg":alg});
+            match guard(|| VecPwHash::from_string(&st)) {
+                Outcome::Ok(h) => {
+                    if !guard(|| h.verify(&pw2)).is_ok() { out.hit("obj.pwhash.verify.rejects-right-password.by-algorithm", format!("algorithm {}", alg), rp.clone()); }
+                    let mut w = pw2.clone(); w[0] ^= 1;
+                    if !guard(|| h.verify(&w)).is_err() { out.hit("obj.pwhash.verify.accepts-wrong-password.by-algorithm", format!("algorithm {}", alg), rp.clone()); }
+                    // ... and hashing again under the record's configuration (fresh salt) gives a record that says what it is
+                    let (_, _, cfg2) = h.clone().into_parts();
+                    match guard(|| VecPwHash::hash(&pw2, cfg2.clone())) {
+                        Outcome::Ok(h2) => {
+                            let s2 = h2.to_string();
+                            if !guard(|| h2.verify(&pw2)).is_ok() { out.hit("obj.pwhash.hash.record-does-not-verify-its-password", format!("algorithm {}: {}", alg, s2), rp.clone()); }
+                            if s2.len() < 128 && !sodium::pwhash_str_verify(&s2, &pw2) { out.hit("obj.pwhash.hash.string-names-another-algorithm", format!("algorithm {}: libsodium rejects {}", alg, s2), rp.clone()); }
+                            if !guard(|| dryoc::classic::crypto_pwhash::crypto_pwhash_str_verify(&s2, &pw2)).is_ok() { out.hit("obj.pwhash.hash.string-rejected-by-str_verify", format!("algorithm {}: {}", alg, s2), rp.clone()); }
+                        }
+                        o => out.hit("obj.pwhash.hash.fails", format!("algorithm {} ({})", alg, o.class()), rp.clone()),
+                    }
+                }
+                o => out.hit("obj.pwhash.from_string.rejects-libsodium-string", o.class().to_string(), rp.clone()),
+            }
         }
     }
     // hash_with_salt uses the whole salt it is given, and the string names that salt: libsodium verifies it
